@@ -14,6 +14,14 @@ properties, naive = the same wall clock tagged UTC for every function; (b) every
 Python's own datetime / timedelta arithmetic on aware values (`pyref`) and the real result must be the same
 value (error classes are left to the model correspondence).
 
+Histories (statement reuse across operand kinds): ONE parsed statement `$a op $b` / `$a.prop` - and ONE lambda body,
+`$rows.select($[0] op $[1])`, `$rows.select($ op $ref)` - is evaluated over a sequence of operand tuples whose kinds
+change (null, ints, strings, timespans, datetimes without zone, aware datetimes; datetimes as equal / neighbouring
+instants at different offsets) for every C20 operator and property (= != < <= > >= + -, .utc .offset .timestamp).
+Oracle on the real code alone: position by position the result equals what a freshly parsed statement gives for that
+tuple alone (history independence) and, for two datetimes under a comparison, what the instants say; correspondence:
+the compiled model runs the same history (Model/DateTimeHist.runHistory).
+
 The process runs with TZ=VRF-05:45 (a fixed UTC+05:45 host zone), so code that reads a naive value as host-local
 time instead of UTC gives a visibly different answer."""
 import datetime as pdt
@@ -1458,7 +1466,9 @@ def run(env, res):
                 'timespan(...) constructors, wall clocks over years 1..9999 biased to boundaries, leap days and '
                 'microsecond extremes, offsets in (-24h, 24h) by minutes (some by seconds/microseconds), signed '
                 'component timespans up to +-999999999 days, int/float timestamps; plus instances of each law of '
-                'the statement on leaf inputs.  distinct = distinct tree / law input; non-trivial = the tree has an '
+                'the statement on leaf inputs; plus histories of one parsed statement / one lambda body over operand tuples of '
+                'changing kinds (null, int, string, timespan, zoneless and aware datetimes for equal instants) per operator and '
+                'property.  distinct = distinct tree / law input / history; non-trivial = the tree has an '
                 'operator or property applied to a value with a non-zero offset or no zone, or the law instance has one')
 
     def ask(trees):
@@ -1629,9 +1639,18 @@ LEVEL_TEXT = ('Lean 4 theorems over a code-shaped model of date_time.py on top o
               'bijection between the dates of years 1..9999 and their ordinals, so datetime(y, m, d, ...) is read back '
               'by the field properties and d.date + d.time = d.  That every datetime parameter '
               'of every definition registered by date_time.py is so declared is re-proved by the kernel over a table '
-              'regenerated from the live registrations.  The model is tied to the code by evaluating random '
+              'regenerated from the live registrations.  Under statement REUSE (C20Hist over Model/DateTimeHist: overload '
+              'resolution of = != < <= > >= + - across operand kinds null / int / string / timespan / datetime, and a per-node '
+              'state): the results of one expression node over any history of operand pairs are the results of the pairs alone '
+              '(history_independent), hence comparisons of datetimes are those of the instants at every position of every '
+              'history (history_compare_instants); a node that remembers its last overload breaks = / != (lastWinner_breaks_'
+              'equality / _rows) and is harmless exactly when every accepting overload is the resolved one (lastWinner_exact, '
+              'exact_of_not_equality, not_exact_eq).  The model is tied to the code by evaluating random '
               'expression trees on the real engine and on the compiled model and comparing exactly, and the laws are '
-              'also checked on real results alone and against Python\'s own aware datetime arithmetic.')
+              'also checked on real results alone and against Python\'s own aware datetime arithmetic; histories of ONE parsed '
+              'statement / ONE lambda body over operand tuples of changing kinds (zoneless host and aware datetimes for equal '
+              'instants among nulls, ints, strings, timespans) must give, position by position, what a freshly parsed statement '
+              'gives for that tuple alone, what the instants say, and what the model\'s history gives.')
 LEVEL_NOTE = ('trusted: Lean kernel; hand-written model Yaql/Model/DateTime.lean (offsets in microseconds, fixed-offset '
               'zones, calendar transcribed from CPython _pydatetime - proved to be a bijection dates <-> ordinals in C20Cal); the '
               'float-valued results (unit properties, .timestamp, ts / ts) are computed by the model as IEEE doubles '
